@@ -39,7 +39,7 @@ fn arm_cookie(ci: &ClientInfo, req: &TcpPacket, m: &Masscanned) -> u32 {
 /// connection table with exactly `n` entries under arbitrary distinct keys.  The number of
 /// entries is concrete per harness instance (a symbolic container shape makes CBMC run out
 /// of memory - measured); the keys are symbolic, so an entry may or may not be this flow's.
-fn any_table(n: usize) {
+fn any_table(n: usize) -> (u32, u32) {
     let k1: u32 = kani::any();
     let k2: u32 = kani::any();
     if n >= 1 {
@@ -49,6 +49,7 @@ fn any_table(n: usize) {
         kani::assume(k1 != k2);
         proto::add_tcb(k2);
     }
+    (k1, k2)
 }
 
 fn syn_policy(v6: bool, nt: usize, n: usize) {
@@ -194,7 +195,13 @@ fn data_path(v6: bool, nt: usize, n: usize, doff: usize, rl: usize) {
     kani::assume(flags & (TcpFlags::PSH | TcpFlags::ACK) == (TcpFlags::PSH | TcpFlags::ACK));
     let masscanned = ms_plain([kani::any(), kani::any()], MacAddr::new(0, 1, 2, 3, 4, 5));
     let mut ci = any_ci(v6);
-    any_table(nt);
+    let (k1, _k2) = any_table(nt);
+    // C08: tag the first entry so that we can tell whose control block the application layer gets
+    let m1: usize = kani::any();
+    kani::assume(m1 != STUB_MARK);
+    if nt >= 1 {
+        proto::get_tcb(k1, |t| t.unwrap().smack_state = m1);
+    }
     proto_rec().cfg_reply_len = rl;
     let cookie = arm_cookie(&ci, &tcp_req, &masscanned);
     let q: u32 = kani::any();
@@ -212,6 +219,11 @@ fn data_path(v6: bool, nt: usize, n: usize, doff: usize, rl: usize) {
         assert!(rec.calls == 0, "C07: unvalidated data reached the application layer");
         kani::cover!(true, "unvalidated data dropped");
         kani::cover!(ack == 0, "unvalidated data with ack 0 dropped");
+        if nt >= 1 {
+            let mut k1_state = 0;
+            proto::get_tcb(k1, |t| k1_state = t.unwrap().smack_state);
+            assert!(k1_state == m1, "C08: an unvalidated segment modified a control block");
+        }
     } else {
         assert!(
             proto::is_tcb_set(q) == (q_before || q == cookie),
@@ -220,6 +232,18 @@ fn data_path(v6: bool, nt: usize, n: usize, doff: usize, rl: usize) {
         assert!(rec.calls == 1, "C11: application layer not called exactly once for an accepted segment");
         assert!(rec.tcb_some, "C08: accepted segment handled without its control block");
         assert!(rec.cookie == Some(cookie), "C08: wrong cookie handed to the application layer");
+        if nt >= 1 {
+            let mut k1_state = 0;
+            proto::get_tcb(k1, |t| k1_state = t.unwrap().smack_state);
+            if cookie == k1 {
+                assert!(rec.tcb_seen_state == m1 && k1_state == STUB_MARK, "C08: the flow's own control block was not the one handed to the application layer");
+            } else {
+                assert!(k1_state == m1, "C08: another flow's control block was modified");
+                let mut own_state = 0;
+                proto::get_tcb(cookie, |t| own_state = t.unwrap().smack_state);
+                assert!(own_state == STUB_MARK && rec.tcb_seen_state == 0, "C08: a new flow did not start from a fresh control block of its own");
+            }
+        }
         assert!(rec.data_len == plen, "C19: application layer did not get exactly the segment payload");
         if plen == 3 {
             assert!(
@@ -525,4 +549,33 @@ fn c01_tcp_nopanic_25() {
 #[kani::stub(crate::synackcookie::generate, crate::verif_util::generate_stub)]
 fn c01_tcp_nopanic_22() {
     tcp_nopanic(22, 0)
+}
+
+//# harness: c20_tcp_events
+//# props: C20
+//# tier: quick
+//# encodes: layer_4::tcp::repl
+//# encodes: logger::MetaLogger::{tcp_recv,tcp_send,tcp_drop}
+//# bounds: 20-byte segment, all 512 flag words and all header fields symbolic; table with 1 entry; IPv4
+//# stubs: proto::repl -> recording contract stub; synackcookie::generate -> one arbitrary u32 per flow
+//# cover: answered
+//# cover: dropped
+#[kani::proof]
+#[kani::unwind(18)]
+#[kani::stub(crate::proto::repl, crate::verif_util::proto_repl_stub)]
+#[kani::stub(crate::synackcookie::generate, crate::verif_util::generate_stub)]
+fn c20_tcp_events() {
+    let buf: [u8; 20] = kani::any();
+    let tcp_req = TcpPacket::new(&buf[..]).unwrap();
+    let masscanned = ms_counting([kani::any(), kani::any()], MacAddr::new(0, 1, 2, 3, 4, 5));
+    let mut ci = any_ci(false);
+    any_table(1);
+    arm_cookie(&ci, &tcp_req, &masscanned);
+    let r = repl(&tcp_req, &masscanned, &mut ci);
+    assert!(balanced(L_TCP, r.is_some()), "C20: TCP layer did not log exactly one recv and one terminal event (send iff answered)");
+    let shown = ev(L_TCP).ci_recv.unwrap();
+    assert!(shown.port.src == Some(tcp_req.get_source()) && shown.port.dst == Some(tcp_req.get_destination()), "C20: ports shown to the logger are not the segment's");
+    assert!(ip_eq(&shown.ip.src, &ci.ip.src) && ip_eq(&shown.ip.dst, &ci.ip.dst), "C20: addresses shown to the logger are not the packet's");
+    kani::cover!(r.is_some(), "answered");
+    kani::cover!(r.is_none(), "dropped");
 }
